@@ -92,3 +92,51 @@ func VerifSnapshot(index VectorIndex) VerifVecState {
 	}
 	return st
 }
+
+// VerifTokenize exposes tokenize(normalize(text)).
+func VerifTokenize(text string) []string { return tokenize(normalize(text)) }
+
+// VerifBM25State is a read-only snapshot of a BM25 index's statistics.
+type VerifBM25State struct {
+	NumDocs     uint32
+	TotalTokens int
+	AvgDocLen   float64
+	DocTokens   map[uint32][]string
+	DocLengths  map[uint32]int
+	Postings    map[string][]uint32
+	TF          map[string]map[uint32]int
+	Deleted     []uint32
+}
+
+// VerifBM25Snapshot copies the internal statistics of a BM25 index.
+func VerifBM25Snapshot(ix *BM25SearchIndex) VerifBM25State {
+	ix.mu.RLock()
+	defer ix.mu.RUnlock()
+	st := VerifBM25State{
+		NumDocs:     ix.numDocs.Load(),
+		TotalTokens: ix.totalTokens,
+		AvgDocLen:   ix.avgDocLen,
+		DocTokens:   map[uint32][]string{},
+		DocLengths:  map[uint32]int{},
+		Postings:    map[string][]uint32{},
+		TF:          map[string]map[uint32]int{},
+		Deleted:     ix.deletedDocs.ToArray(),
+	}
+	for id, toks := range ix.docTokens {
+		st.DocTokens[id] = append([]string(nil), toks...)
+	}
+	for id, l := range ix.docLengths {
+		st.DocLengths[id] = l
+	}
+	for t, bm := range ix.postings {
+		st.Postings[t] = bm.ToArray()
+	}
+	for t, m := range ix.tf {
+		c := map[uint32]int{}
+		for id, f := range m {
+			c[id] = f
+		}
+		st.TF[t] = c
+	}
+	return st
+}
